@@ -196,13 +196,21 @@ pub mod native {
         let seed: u64 = std::env::var("VERIF_SEED").ok().and_then(|s| s.parse().ok()).unwrap_or(1);
         let mut rng: Option<u64> = None;
         let mut mode = "exhaustive";
+        let trace = std::env::var("VERIF_TRACE").is_ok();
+        let mut panicked: Option<String> = None;
+        std::panic::set_hook(Box::new(|_| {}));
         loop {
             let mut cx = GridCtx::new(prefix);
             cx.rng = rng;
-            f(&mut cx);
+            // a panic of the code under contract is an outcome of that input, not of the whole run
+            if std::panic::catch_unwind(std::panic::AssertUnwindSafe(|| f(&mut cx))).is_err() {
+                if panicked.is_none() { panicked = Some(cx.drawn.join(" ")); }
+                cx.out.rejected = true;
+            }
             rng = cx.rng;
             evals += 1;
             if !cx.out.rejected { accepted += 1; }
+            if trace { println!("REPLAY-TRACE {}", cx.drawn.join(" ")); }
             for n in &cx.out.checked { if !names.contains(n) { names.push(n); } }
             for (name, inputs) in &cx.out.failed {
                 if !seen.contains(name) {
@@ -230,9 +238,17 @@ pub mod native {
                 None => break,
             }
         }
+        let _ = std::panic::take_hook();
+        let mut failing = seen.len();
+        if let Some(inputs) = &panicked {
+            // one failing obligation per property the unit speaks about: `<Cxx>.<unit>.does_not_panic`
+            let mut props: Vec<&str> = names.iter().filter_map(|n| n.split('.').next()).collect();
+            props.sort(); props.dedup();
+            for p in props { println!("REPLAY-FAIL unit={unit} obligation={p}.{unit}.does_not_panic inputs=[{inputs}]"); failing += 1; }
+        }
         println!("REPLAY-OBLIGATIONS unit={unit} names={}", names.join(","));
-        println!("REPLAY-SUMMARY unit={unit} mode={mode} evaluations={evals} accepted={accepted} obligations_exercised={} failing={}", names.len(), seen.len());
-        seen.len() as i32
+        println!("REPLAY-SUMMARY unit={unit} mode={mode} evaluations={evals} accepted={accepted} obligations_exercised={} failing={}", names.len(), failing);
+        failing as i32
     }
 
     pub fn run_bytes(unit: &str, f: fn(&mut BytesCtx), vals: Vec<Vec<u8>>) -> i32 {
@@ -669,6 +685,7 @@ pub fn contract_named_bits<C: Ctx>(cx: &mut C) {
 //  native bounded stand-in only.)
 
 #[cfg(not(kani))]
+pub use crate::intermediate::encoding_rules::per_visible::verif_hook::{hook_compare_optional, hook_fold_constraint_set, hook_intersect_single_and_range, hook_union_optional, hook_union_single_and_range};
 pub fn hook_needs_unnesting(ty: &ASN1Type) -> bool { crate::generator::rasn::Rasn::needs_unnesting(ty) }
 
 #[cfg(not(kani))]
@@ -690,6 +707,7 @@ pub fn replay_bounded(unit: &str) -> Option<i32> {
         "b_c07_value_rendering" => run_grid(unit, contract_value_rendering, limit),
         "b_c05_nested_enumerated" => run_grid(unit, contract_generate_nested_enumerated, limit),
         "b_c02_components_of_import" => run_grid(unit, contract_components_of_import, limit),
+        "b_c02_components_of_placement" => run_grid(unit, contract_components_of_placement, limit),
         "b_c02_nested_collections" => run_grid(unit, contract_generate_nested_collections, limit),
         "b_c03_tagged_assignment" => run_grid(unit, contract_generate_tagged_assignment, limit),
         "b_c06_literal_rendering" => run_grid(unit, contract_literal_rendering, limit),
@@ -1243,13 +1261,13 @@ pub fn contract_generate_enumerated<C: Ctx>(cx: &mut C) {
         use crate::intermediate::types::*;
         use crate::generator::Backend;
         use std::{cell::RefCell, rc::Rc};
-        const POOL: [&str; 6] = ["alpha", "with-hyphen", "move", "type", "b2", "loop"];
+        const POOL: [&str; 12] = ["alpha", "with-hyphen", "move", "type", "b2", "loop", "self", "crate", "super", "true", "a-B-c", "in"];
         const NUMBERS: [i128; 6] = [5, -1, 0, 7, 2, 300];
         let n = 1 + cx.choose(4);
-        let start = cx.choose(6);
+        let start = cx.choose(12);
         let ext = cx.choose(n + 2);
         let extensible = if ext == 0 { None } else { Some(ext - 1) };
-        let members: Vec<Enumeral> = (0..n).map(|i| Enumeral { name: POOL[(start + i) % 6].into(), description: None, index: NUMBERS[(start + 2 * i) % 6] + if (start + i) % 2 == 0 { 1000 * (4 - i as i128) } else { -1000 * i as i128 } }).collect();
+        let members: Vec<Enumeral> = (0..n).map(|i| Enumeral { name: POOL[(start + i) % 12].into(), description: None, index: NUMBERS[(start + 2 * i) % 6] + if (start + i) % 2 == 0 { 1000 * (4 - i as i128) } else { -1000 * i as i128 } }).collect();
         cx.describe(|| format!("enumerals={:?} first_addition_index={extensible:?}", members.iter().map(|m| format!("{}({})", m.name, m.index)).collect::<Vec<_>>()));
         let ty = ASN1Type::Enumerated(Enumerated { members: members.clone(), extensible, constraints: vec![] });
         let h = Rc::new(RefCell::new(ModuleHeader { name: "M".into(), module_identifier: None, encoding_reference_default: None, tagging_environment: TaggingEnvironment::Automatic, extensibility_environment: ExtensibilityEnvironment::Explicit, imports: vec![], exports: None }));
@@ -2144,6 +2162,65 @@ pub fn contract_components_of_import<C: Ctx>(cx: &mut C) {
     { let _ = cx; }
 }
 
+/// every `pub struct <name> { .. }` of the generated text: (name, attributes before it, fields as written)
+#[cfg(not(kani))]
+fn struct_items(generated: &str) -> Vec<(String, String, Vec<String>)> {
+    let mut out = vec![];
+    let mut from = 0;
+    while let Some(p) = generated[from..].find("pub struct ") {
+        let start = from + p + "pub struct ".len();
+        let name: String = generated[start..].chars().take_while(|c| c.is_alphanumeric() || *c == '_').collect();
+        from = start;
+        if generated[start + name.len()..].trim_start().starts_with('{') {
+            if let Some((attrs, fields)) = item_of(generated, &name) { out.push((name, attrs, fields)); }
+        }
+    }
+    out
+}
+
+/// C02 / C05 — COMPONENTS OF wherever X.680 allows a component list (whole pipeline, `Compiler::compile_to_string`):
+/// every SEQUENCE / SET that writes `COMPONENTS OF Base` — at top level, in an alternative of a CHOICE, in several
+/// components or alternatives of the same type, as the element of a SEQUENCE OF / SET OF, below a CHOICE below a
+/// SEQUENCE — is generated with its own component plus exactly the root components of every referenced type; and with
+/// a marker that nothing follows, none of them is an extension addition.
+pub fn contract_components_of_placement<C: Ctx>(cx: &mut C) {
+    #[cfg(not(kani))]
+    {
+        let set = cx.any_bool();
+        let placement = cx.choose(7);
+        let two_clauses = cx.any_bool();
+        let marker = cx.any_bool();
+        let base_marker = cx.any_bool();
+        let kw = if set { "SET" } else { "SEQUENCE" };
+        let holder = |own: &str| format!("{kw} {{ {own} INTEGER, COMPONENTS OF Base{}{} }}", if two_clauses { ", COMPONENTS OF Second" } else { "" }, if marker { ", ..." } else { "" });
+        let (t, n_holders) = match placement {
+            0 => (holder("own"), 1),
+            1 => (format!("CHOICE {{ a {}, b NULL }}", holder("own")), 1),
+            2 => (format!("SEQUENCE {{ a {}, b {} }}", holder("own"), holder("own")), 2),
+            3 => (format!("SEQUENCE OF {}", holder("own")), 1),
+            4 => (format!("SET OF {}", holder("own")), 1),
+            5 => (format!("CHOICE {{ a {}, b {}, c {} }}", holder("own"), holder("own"), holder("own")), 3),
+            _ => (format!("SEQUENCE {{ id INTEGER, body CHOICE {{ full {}, none NULL }} OPTIONAL }}", holder("own")), 1),
+        };
+        let src = format!("M DEFINITIONS AUTOMATIC TAGS ::= BEGIN Base ::= {kw} {{ p1 INTEGER, p2 BOOLEAN, p3 NULL{} }} Second ::= {kw} {{ q1 BOOLEAN }} T ::= {t} END", if base_marker { ", ..., x1 NULL" } else { "" });
+        cx.describe(|| src.clone());
+        let out = crate::Compiler::<crate::generator::rasn::Rasn, _>::new().add_asn_literal(&src).compile_to_string();
+        let Ok(res) = out else { vob!(cx, "C02.components_of_placement.compiles", false); return; };
+        let holders: Vec<(String, String, Vec<String>)> = struct_items(&res.generated).into_iter().filter(|(_, _, fs)| fs.iter().any(|f| f.contains("pub own :"))).collect();
+        let mut want: Vec<&str> = vec!["own", "p1", "p2", "p3"];
+        if two_clauses { want.push("q1"); }
+        want.sort();
+        let names = |fs: &Vec<String>| { let mut v: Vec<String> = fs.iter().filter_map(|f| f.split("pub ").nth(1).and_then(|r| r.split(" :").next()).map(|n| n.trim().to_string())).collect(); v.sort(); v };
+        vob!(cx, "C02.components_of_placement.every_including_type_is_generated", holders.len() == n_holders);
+        vob!(cx, "C02.components_of_placement.own_plus_exactly_the_root_components_of_every_clause", holders.iter().all(|(_, _, fs)| names(fs) == want));
+        // nothing follows the marker: no component is an extension addition
+        vob!(cx, "C05.components_of_placement.components_before_the_marker_are_not_extension_additions", holders.iter().all(|(_, _, fs)| fs.iter().all(|f| !f.contains("extension_addition"))));
+        vob!(cx, "C05.components_of_placement.extensible_iff_marker", holders.iter().all(|(_, attrs, _)| attrs.contains("non_exhaustive") == marker));
+    }
+    #[cfg(kani)]
+    { let _ = cx; }
+}
+
 /// C02 — collections of collections keep their kind: `Rasn::generate_sequence_or_set_of` for
 /// `T ::= {SEQUENCE|SET} OF {SEQUENCE|SET} OF <element>` (element BOOLEAN or a type reference).
 pub fn contract_generate_nested_collections<C: Ctx>(cx: &mut C) {
@@ -2193,19 +2270,26 @@ pub fn contract_generate_tagged_assignment<C: Ctx>(cx: &mut C) {
             ("SEQUENCE OF BOOLEAN", ASN1Type::SequenceOf(SequenceOrSetOf { constraints: vec![], element_type: Box::new(ASN1Type::Boolean(Boolean { constraints: vec![] })), element_tag: None, is_recursive: false })),
             ("ENUMERATED", ASN1Type::Enumerated(Enumerated { members: vec![Enumeral { name: "a".into(), description: None, index: 0 }], extensible: None, constraints: vec![] })),
             ("type reference", ASN1Type::ElsewhereDeclaredType(DeclarationElsewhere { parent: None, module: None, identifier: "Other".into(), constraints: vec![] })),
+            ("SET OF INTEGER", ASN1Type::SetOf(SequenceOrSetOf { constraints: vec![], element_type: Box::new(ASN1Type::Integer(Integer { constraints: vec![], distinguished_values: None })), element_tag: None, is_recursive: false })),
+            ("SEQUENCE OF SEQUENCE { x NULL }", ASN1Type::SequenceOf(SequenceOrSetOf { constraints: vec![], element_type: Box::new(ASN1Type::Sequence(SequenceOrSet { components_of: vec![], extensible: None, constraints: vec![], members: vec![SequenceOrSetMember { name: "x".into(), tag: None, ty: ASN1Type::Null, optionality: Optionality::Required, is_recursive: false, constraints: vec![] }] })), element_tag: None, is_recursive: false })),
+            ("SEQUENCE OF Other", ASN1Type::SequenceOf(SequenceOrSetOf { constraints: vec![], element_type: Box::new(ASN1Type::ElsewhereDeclaredType(DeclarationElsewhere { parent: None, module: None, identifier: "Other".into(), constraints: vec![] })), element_tag: None, is_recursive: false })),
         ];
         let (name, ty) = kinds[cx.choose(kinds.len())].clone();
+        // type references whose Rust name differs from the ASN.1 name carry an identifier annotation next to the tag
+        let type_name = ["T", "Msg-Id", "AS-REQ", "type"][cx.choose(4)];
         // the tag as it looks after apply_tagging_environment: keyword-less in a module with default `env`
         let tag = AsnTag { environment: env, tag_class: TagClass::Application, id: 8 };
-        cx.describe(|| format!("module_default={env:?} T ::= [APPLICATION 8] {name}"));
+        cx.describe(|| format!("module_default={env:?} {type_name} ::= [APPLICATION 8] {name}"));
         let h = Rc::new(RefCell::new(ModuleHeader { name: "M".into(), module_identifier: None, encoding_reference_default: None, tagging_environment: env, extensibility_environment: ExtensibilityEnvironment::Explicit, imports: vec![], exports: None }));
-        let tld = ToplevelDefinition::Type(ToplevelTypeDefinition { comments: String::new(), tag: Some(tag), name: "T".into(), ty, parameterization: None, module_header: Some(h) });
+        let tld = ToplevelDefinition::Type(ToplevelTypeDefinition { comments: String::new(), tag: Some(tag), name: type_name.into(), ty, parameterization: None, module_header: Some(h) });
         let mut backend = crate::generator::rasn::Rasn::default();
         let generated = match backend.generate_module(vec![tld]) { Ok(m) if m.warnings.is_empty() => m.generated.unwrap_or_default(), _ => { vob!(cx, "C03.generate.tagged_assignment_is_generated", false); return; } };
         let explicit_form = "tag (explicit (application , 8))";
         let implicit_form = "tag (application , 8)";
         vob!(cx, "C03.generate.tagged_builtin_assignment_explicit_iff_resolved_mode_is_explicit",
             if env == TaggingEnvironment::Explicit { generated.contains(explicit_form) } else { generated.contains(implicit_form) && !generated.contains(explicit_form) });
+        // the tag belongs to the assigned type alone: an anonymous element type hoisted out of it is not tagged
+        vob!(cx, "C03.generate.tag_of_the_assignment_is_applied_to_that_type_only", generated.matches("application , 8").count() == 1);
     }
     #[cfg(kani)]
     { let _ = cx; }
@@ -2231,8 +2315,9 @@ pub fn contract_literal_rendering<C: Ctx>(cx: &mut C) {
                 // fixed width: the bare literal; arbitrary precision: Integer::from(<v>i128)
                 let want_fixed = v.to_string();
                 vob!(cx, "C06.literal_rendering.digits_are_the_value", if t == IntegerType::Unbounded { text.contains(&format!("{v}i128")) || text.contains(&format!("({v})")) } else { text == want_fixed || text == format!("-{}", want_fixed.trim_start_matches('-')) && v < 0 });
+                vob!(cx, "C07.literal_rendering.typed_integer_literal_denotes_the_source_value", if t == IntegerType::Unbounded { text.contains(&format!("{v}i128")) || text.contains(&format!("({v})")) } else { text == want_fixed || text == format!("-{}", want_fixed.trim_start_matches('-')) && v < 0 });
             }
-            Err(_) => { vob!(cx, "C06.literal_rendering.renders", false); }
+            Err(_) => { vob!(cx, "C06.literal_rendering.renders", false); vob!(cx, "C07.literal_rendering.renders", false); }
         }
     }
     #[cfg(kani)]
